@@ -25,6 +25,10 @@ def run(ctx):
                       "watch=True: exactly one watcher per owner object, watching all of that owner's names, one shared callback", floor=1)
     ctx.rule("R06.r", "depends model, method-name recursion: _params_depended_on interpreted for a method that names another method as a dependency (in three orders): every (parameter, what) "
                       "pair and every dynamic spec the named method declares is among the result -- 'a' and 'a:bounds' are different dependencies", floor=1)
+    ctx.rule("R06.g", "depends model, constant group: Parameters._watch_group interpreted for a group of constant dependencies that names a parameter twice (directly and through a method): "
+                      "one watcher whose parameter list holds each name once, without change filter or callback", floor=1)
+    ctx.rule("R06.s", "a copy keeps the one-watcher-per-method structure: Parameterized.__setstate__ interpreted on a saved watcher table in which one watcher is listed under two parameters "
+                      "re-creates it as ONE object (batched dispatch tells watchers apart by identity) -- shared with R17.i", floor=1)
     ctx.rule("R06.c", "the construction path reaches the installation: Parameterized.__init__ calls param._update_deps(init=True) after the values were set, and the depends decorator records "
                       "watch / on_init / the dependency list in _dinfo, the only thing the metaclass reads", floor=2)
     ctx.not_decided += ["that a watcher runs its callback once per batch and only on a change (C05 / C03 decide that for every watcher, these included)",
@@ -52,5 +56,8 @@ def run(ctx):
         ctx.fail("R06.c", dep, dep.node, "depends no longer records %s in _dinfo" % sorted(need - keys), key=dep.qualname + "::dinfo")
     from checks import depends_model
     depends_model.report_function_form(ctx, "R06.f")
+    depends_model.report_constant_group(ctx, "R06.g")
+    from checks.c17 import setstate_watcher_table
+    setstate_watcher_table(ctx, "R06.s")
     depends_model.report_method_recursion(ctx, "R06.r")
     depends_model.report(ctx, "R06.a", "R06.b")
